@@ -56,7 +56,7 @@ func (fs *FS) addMount(p string, mountFS hackpadfs.FS) error {
 	fs.mountMu.Lock()
 	defer fs.mountMu.Unlock()
 
-	dir, base := path.Split(p)
+	dir, base := path.Dir(p), path.Base(p)
 	parentFS, subPath := fs.Mount(dir) // get this mount point's parent mount, verify dir exists
 	f, err := parentFS.Open(path.Join(subPath, base))
 	if err != nil {
@@ -82,6 +82,10 @@ func (fs *FS) addMount(p string, mountFS hackpadfs.FS) error {
 
 // Mount implements hackpadfs.MountFS
 func (fs *FS) Mount(path string) (mount hackpadfs.FS, subPath string) {
+	if !hackpadfs.ValidPath(path) {
+		// an invalid path (e.g. "mnt/") must not be cleaned up and routed into a mount, let the root FS reject it as is
+		return fs.rootFS, path
+	}
 	mount, mountPath, subPath := fs.mountPoint(path)
 	if mountPath == "." {
 		return mount, path
@@ -123,6 +127,9 @@ func (fs *FS) mountPoint(path string) (_ hackpadfs.FS, mountPoint, subPath strin
 
 // Open implements hackpadfs.FS
 func (fs *FS) Open(name string) (hackpadfs.File, error) {
+	if !hackpadfs.ValidPath(name) {
+		return nil, &hackpadfs.PathError{Op: "open", Path: name, Err: hackpadfs.ErrInvalid}
+	}
 	mountFS, mountPath, subPath := fs.mountPoint(name)
 	if mountPath == "." {
 		return mountFS.Open(name)
@@ -169,6 +176,9 @@ func (fs *FS) Rename(oldname, newname string) error {
 }
 
 func (fs *FS) rename(oldname, newname string) error {
+	if !hackpadfs.ValidPath(oldname) || !hackpadfs.ValidPath(newname) {
+		return hackpadfs.ErrInvalid
+	}
 	oldMount, oldPoint, oldSubPath := fs.mountPoint(oldname)
 	newMount, newPoint, newSubPath := fs.mountPoint(newname)
 	if oldPoint == newPoint && oldname != newname {
